@@ -133,14 +133,31 @@ def step_validate(res, d, nlines, selftest=False):
         # the binding is demonstrated on every run: one corrupted projection and one removed step must be rejected at that line
         good = os.path.join(d, "steps.good.ndjson")
         os.rename(os.path.join(d, "steps.ndjson"), good)
-        i = next(k for k in range(total // 3, total) if '"pending"' in lines[k])
+        i = next(k for k in range(total // 3, total) if '"pending"' in lines[k] and '"m3r_inc"' in lines[k])  # not a stutter label
         o = json.loads(lines[i]); o["pending"] += 1
         open(os.path.join(d, "steps.ndjson"), "w").write("\n".join(lines[:i] + [json.dumps(o)] + lines[i + 1:]) + "\n")
         c1, _, _ = _run_steps(d)
-        j = next(k for k in range(total // 2, total) if '"m3r_done"' in lines[k])
-        open(os.path.join(d, "steps.ndjson"), "w").write("\n".join(lines[:j] + lines[j + 1:]) + "\n")
-        c2, _, _ = _run_steps(d)
+        # remove one m3r_done step: the same thread's next step (m3r_now) is then not the model's action at its label;
+        # steps of other threads in between are still consumed
+        j = want = None
+        for k in range(total // 2, total):
+            if '"m3r_done"' not in lines[k]:
+                continue
+            t = json.loads(lines[k])["t"]
+            for k2 in range(k + 1, total):
+                o2 = json.loads(lines[k2])
+                if o2.get("e") != "step":
+                    break
+                if o2.get("t") == t:
+                    j, want = k, k2 - 1
+                    break
+            if j is not None:
+                break
+        c2 = None
+        if j is not None:
+            open(os.path.join(d, "steps.ndjson"), "w").write("\n".join(lines[:j] + lines[j + 1:]) + "\n")
+            c2, _, _ = _run_steps(d)
         os.rename(good, os.path.join(d, "steps.ndjson"))
-        if c1 != i or c2 != j:
-            raise vlib.Infra("binding self-test failed: a corrupted projection at line %d was consumed up to %d, a removed step at line %d up to %d" % (i + 1, c1, j + 1, c2))
-        res.extra["binding_selftest"] = "corrupted projection rejected at line %d, removed step rejected at line %d" % (i + 1, j + 1)
+        if c1 != i or c2 != want:
+            raise vlib.Infra("binding self-test failed: a corrupted projection at line %d was consumed up to %d; with the step at line %s removed %s lines were consumed, expected %s" % (i + 1, c1, j, c2, want))
+        res.extra["binding_selftest"] = "corrupted projection rejected at line %d; with the step at line %d removed, the same thread's next step was rejected" % (i + 1, j + 1)
